@@ -229,6 +229,9 @@ pub fn run_legacy(kvs: &[Kv], mutate: bool) -> Result<(u64, u64), String> {
 }
 
 pub fn replay(case: &Value) -> Result<String, String> {
+    if let Some(r) = super::seqread::replay(case) {
+        return r;
+    }
     match case["kind"].as_str().unwrap() {
         "legacy" => {
             let i = case["member"].as_u64().unwrap() as usize;
@@ -385,5 +388,7 @@ pub fn plan(tier: Tier) -> Plan {
         }
     }));
     p.must_be_nonzero = vec!["grid_files_opened".into(), "mutants_opened".into(), "unsafe_lint_passed".into(), "legacy_files_opened".into()];
+    p.rule.push_str(super::seqread::RULE);
+    super::seqread::add_units(&mut p, super::seqread::Class::Panics, if tier.thorough() { 5 } else { 4 });
     p
 }
